@@ -46,7 +46,8 @@ prop('C15', 'model_checking',
      'interleaving of the repaired design (and exhibits the counterexample of the shared-object design as vacuity '
      'control); every bounded behaviour that signs something and simulated longer ones are replayed with real RSA keys '
      'sequentially and with one thread per entity, the key that really signed being determined by an independent '
-     'verifier; RedirectQuery.tla enumerates 600 (algorithm x message type x RelayState x mutation x certificate) '
+     'verifier; RedirectQuery.tla enumerates 1 800 (algorithm x message type x RelayState character class x mutation x certificate) '
+     'scenarios with the three places a query string is encoded (signed, transmitted, rebuilt by the verifier) as design parameters, '
      'scenarios against the pipeline of verify_redirect_signature; random threaded executions are validated by TLC',
      'interleaving at the granularity of API calls (obtain / sign / verify); 2-3 entities; real 2048-bit RSA keys',
      'TLA+ interleaving model + TLC + behaviour replay (threads) + TLC trace validation', 'section 5 C15')
@@ -57,12 +58,14 @@ prop('C02', 'model_checking',
      'signature absent/valid/invalid x plain/encrypted) and that acceptance implies every recorded verification said OK; '
      'every scenario is rendered with real signatures / encryption (invalid = broken digest, altered SignatureValue or '
      'foreign key; five RSA-SHA algorithms) and replayed into Saml2Client.parse_authn_request_response; the recorded '
-     'tool-call traces are validated by the TLA+ contract monitor SPSigReqTrace', TOOL_NOTE,
+     'tool-call traces are validated by the TLA+ contract monitor SPSigReqTrace; SPHistory.tla specifies the SP as a long-lived '
+     'receiver (repeated deliveries of genuine and edited copies with the same identifiers; HistoryIndependent; a receiver that '
+     'remembers verified signatures is the vacuity control) and every history is replayed into one Saml2Client', TOOL_NOTE,
      'TLA+ scenario spec + TLC + replay + TLC trace validation', 'section 5 C02')
 
 prop('C05', 'model_checking',
      'SPAddress.tla models loads / destination / conditions / subject-confirmation steps of the SP and the contract of the '
-     'property over the full cross product (53 760 scenarios incl. encrypted assertions and both browser bindings); TLC '
+     'property over the full cross product (54 464 scenarios incl. encrypted assertions, both browser bindings, endpoint-for-binding and a second bearer confirmation with own / foreign Recipient); TLC '
      'checks the repaired design against the contract (and exhibits the counterexamples of the pinned design as vacuity '
      'control); scenarios are rendered from templates and replayed into Saml2Client.parse_authn_request_response, verdict '
      'and came_from compared with the contract, pipeline disagreements reported as drift notes',
@@ -75,7 +78,8 @@ prop('C04', 'model_checking',
      '(edges left open); TLC checks pipeline against contract on 33 024 scenarios (subset of optional bounds x focused bound x '
      'distance from its edge x allowance multiples x allowance x spelling) including the session-expiry value; scenarios are '
      'rendered from templates and replayed into the real SP under a virtual clock, verdict and session_info()[not_on_or_after] '
-     'compared with the contract',
+     'compared with the contract; SPHistory.tla (slice Tick) delivers the same message text before and after the clock passes '
+     'its NotOnOrAfter to one long-lived SP (HistoryIndependent; a receiver that remembers a time-stamp verdict is the vacuity control)',
      'virtual clock by rebinding saml2_tophat.time_util.time/datetime; unsigned responses; quick tier replays a seeded quarter',
      'TLA+ scenario spec + TLC + exhaustive replay', 'section 5 C04')
 
@@ -90,7 +94,7 @@ prop('C06', 'model_checking',
 prop('C01', 'model_checking',
      'SigDoc.tla models a signed response as a tree, an attacker with structural edits (forge, change/duplicate/remove IDs, '
      'move, insert forged or copied assertions and Advice/Extensions/ds:Object/foreign containers, copy signatures, drop, wrap '
-     'the root), the tool view (XmlSecTool.tla T1-T4: first Signature below the start node, references by registered ID, '
+     'the root, wrap an assertion with an attacker-made signature, and finally seal one top-level assertion for the SP), the tool view (XmlSecTool.tla T1-T4: first Signature below the start node, references by registered ID, '
      'structural digests) and the SP view (last-wins parsing, the C02 acceptance table); TLC checks that the repaired '
      '_check_signature design accepts only documents whose relied-upon element is itself the one its single direct '
      'signature references and digests, for response-, assertion- and both-level signatures (412 908 documents at 3 edits; '
@@ -105,7 +109,9 @@ prop('C03', 'model_checking',
      'embedded certificates only when the flag is off and metadata holds none) and one tool run per candidate; TLC checks it '
      'against the contract on all 1 680 scenarios (7 key-descriptor layouts x claimed issuer x real signing key x embedded '
      'certificate x flag x signature level); all are replayed with real RSA keys and template-written metadata, and the '
-     'stand-in log must show a successful verification under the real signing key for every acceptance', TOOL_NOTE,
+     'stand-in log must show a successful verification under the real signing key for every acceptance; SPHistory.tla (slice Roll) '
+     'replays histories with a key roll-over by metadata reload on one long-lived SP (a receiver that caches the issuer certificate is '
+     'the vacuity control)', TOOL_NOTE,
      'TLA+ scenario spec + TLC + exhaustive replay', 'section 5 C03')
 
 prop('C20', 'fault_enumeration',
@@ -151,8 +157,9 @@ prop('C07', 'model_checking',
      'IdPRelease.tla models Policy.filter (entity categories, SP declaration with value constraints, attribute restrictions with '
      'value patterns, per-SP / default lookup), MissingValue and the best-effort path of Server.setup_assertion, and the contract '
      '(released values are within identity, applicable restrictions, entitlements and the SP declaration; nothing is withheld '
-     'when only restrictions apply); TLC checks the repaired design on 4 032 scenarios and exhibits the leak of the pinned '
-     'design; all scenarios are replayed through Server.create_authn_response and Server.create_attribute_response (an IdP + attribute-authority entity) with template-written SP metadata, the released '
+     'when only restrictions apply); TLC checks the repaired design on 4 032 requests x 13 predecessors (the long-lived server has just served none or one of '
+     'twelve kinds of provider) and exhibits the leak of the pinned '
+     'design; scenarios (quick: all without predecessor and a seeded 8 % of the rest) are replayed on one server per policy through Server.create_authn_response and Server.create_attribute_response (an IdP + attribute-authority entity) with template-written SP metadata, the released '
      'set read from the XML by an independent parser',
      'three attributes from the shipped attribute maps, two values (one non-ASCII), the refeds entity-category module; anchored patterns',
      'TLA+ scenario spec + TLC + exhaustive replay', 'section 5 C07')
@@ -172,7 +179,7 @@ prop('C12', 'model_checking',
      'defines serialisation and parsing the way SamlBase works over them; TLC checks for every class the table invariants the '
      'generic algorithms need (a c_children key names the element of the class it maps to, every member occurs in a non-empty '
      'c_child_order, member names unique) and the abstract round trip of every instance variant; all variants (nothing set, each '
-     'attribute, all attributes, each child 1..3 times, all children, foreign child / attribute, XML-special and non-ASCII '
+     'attribute, all attributes, each child 1..3 times, all children, foreign child / attribute, own-namespace look-alikes of a declared attribute, XML-special and non-ASCII '
      'text) are built with the real classes, serialised, parsed, compared structurally, re-serialised byte for byte and checked '
      'for schema child order',
      'depth-1 instances; two text classes per class; values are one canonical literal per declared type',
@@ -191,7 +198,7 @@ prop('C13', 'model_checking',
 prop('C14', 'exploration',
      'Bindings.tla models the wire each binding writes as a token sequence (structural separators distinct from escaped payload '
      'characters, per escaping rule) and an independent reader; TLC checks NoInjection (exactly the expected parameters, each '
-     'once, existing query preserved, quotes only as delimiters) and RoundTrip for every scenario over a 16-class alphabet, and '
+     'once, existing query preserved, quotes only as delimiters) and RoundTrip for every scenario over a 26-class alphabet (separators, escapes, escape look-alikes, look-alikes of the form template\'s placeholders), and '
      'exhibits the counterexamples of the pinned design (SOAP newline loss, artifact glue); every scenario is executed through '
      'Entity.apply_binding and read back by strict urllib parse_qsl / html.parser / xml.etree and by Entity.unravel and the SOAP '
      'decoders. Bounded-exhaustive over a character-class alphabet: the "for all strings" part is not proved',
@@ -200,7 +207,7 @@ prop('C14', 'exploration',
 
 prop('C11', 'exploration',
      'XmlEntry.tla enumerates words of hostile constructs (five kinds of entity declaration, external DTD, XInclude, stylesheet '
-     'PI, UTF-16, BOM, truncations, non-XML) x the entry-point table extracted from the code at check time (54 entry points: '
+     'PI, UTF-16, BOM, declared-encoding mismatches, truncations, four kinds of encoding-invalid bytes, non-XML) x the entry-point table extracted from the code at check time (54 entry points: '
      'generated *_from_string functions of every schema module, SOAP parsers, SP / IdP parse functions per binding, metadata '
      'load, signature pre-check) with the contract (entity declarations and malformed input refused, never any file or network '
      'access) and a defusing-parser pipeline (a plain-parser variant is the vacuity control); every case is executed with '
@@ -212,7 +219,7 @@ prop('C08', 'model_checking',
      'EndToEnd.tla composes the IdP build options with the SP acceptance table of C02 (precondition: the requirements are met), the '
      'release contract of C07 (the SP\'s generated metadata asks for what its configuration lists) and the transports of C14, and '
      'enumerates sign_response x sign_assertion x encrypt_assertion x algorithm pair x POST/Redirect/SOAP x requirement triple x '
-     'NameID format x session expiry x 11 value classes x unknown attribute; IdP and SP are configured from each other\'s '
+     'NameID format x session expiry x 11 value classes x unknown attribute x the SP\'s clock-skew allowance; IdP and SP are configured from each other\'s '
      'generated metadata, the response is built by Server.create_authn_response, packed by apply_binding, read from the wire by '
      'independent parsers and parsed by the SP; subject, attributes (after name mapping and trimming), in-response-to, issuer, '
      'session expiry and the element structure must equal what was asked',
